@@ -74,6 +74,7 @@ def run(ctx):
                 "parked goroutines with the environment's choices) forced on the real resolver and its recorded event stream validated by TLC; "
                 "distinct by (configuration, release sequence); non-trivial = the running goroutine changes at least 3 times",
         "generated_behaviours": totals,
+        "replayed_per_family": tot["per_family"],
         "samples": tot["samples"][:3],
         "unrealised_schedules": tot["unreal"],
         "invariants_on_traces": sc.INVS[PROP],
